@@ -1069,9 +1069,20 @@ class Node(object):
         node.parentNode = self.parentNode
         node.ownerDocument = self.ownerDocument
         if deep:
+            aliased = False
             if node.attributes is not None and self.attributes is not None:
-                node.attributes.update(self.attributes)
-            if self.hasChildNodes():
+                # A deep copy must not share attribute nodes with the original
+                for key, value in list(self.attributes.items()):
+                    if isinstance(value, Node):
+                        if key == 'self' and value is self.childNodes:
+                            aliased = True
+                        value = value.cloneNode(deep)
+                        if value.nodeType == Node.DOCUMENT_FRAGMENT_NODE:
+                            value.parentNode = node
+                    node.attributes[key] = value
+            # When the `self` attribute is the child list, the children
+            # have just been copied with it
+            if self.hasChildNodes() and not aliased:
                 for x in self.childNodes:
                     node.append(x.cloneNode(deep))
         else:
